@@ -7,11 +7,12 @@ Monitor shape: recording post-condition wrappers (vlib/c14_mon.py) rebound onto 
 recomputation of constraints and free-row residual.  The legacy wrappers (solve_linear, newton,
 minimize, pseudotime, thetamethod, optimize) and ``Topology.project`` are driven from here and
 checked at the call site with the same predicates.  MatrixError / SolverError are accepted refusals;
-other exception types are counted as 'other-refusal' evidence.  A signal.alarm wall watchdog per
-case only ever yields 'inconclusive for that case'.
+other exception types are counted as 'other-refusal' evidence.  A per-case watchdog (CPU-time itimer
+plus a signal.alarm wall backstop) only ever yields 'inconclusive for that case'; every solve is
+bounded by maxiter.  Deterministic reproducers of the ledger mechanisms run as family R on every run.
 """
 
-import hashlib, itertools, json, traceback, warnings
+import hashlib, itertools, json, os, traceback, warnings
 import numpy
 from vlib.runner import Result, rng_for
 from vlib import c14_mon as mon
@@ -33,11 +34,14 @@ RULE = ('five random case families, each case reproducible from (seed, family, i
 ASSUMPTIONS = ['dense numpy arithmetic (matrix export("dense") @ x, checked separately by C15) is the reference for residuals',
                'requested tolerance is read from the call: max(atol, rtol*|b_free|) for Matrix.solve, tol for System.solve, newtontol for thetamethod',
                'atol = rtol = 0 promises no number: only finiteness, constraints and (for exact solver configurations) independence of the initial guess within 1e3*cond*eps are demanded',
-               'inputs with non-finite matrix/rhs/initial guess are outside the monitored domain (counted)',
-               'MKL backend not installable offline: not covered', 'wall-clock watchdog firings are inconclusive for that case, never violations']
-BUDGET_S = {'quick': 75, 'thorough': 1320}
+               'non-finite matrix/rhs (or norms that overflow): only finiteness and constraints of a RETURNED vector are demanded; non-finite lhs0/constraint values are outside the domain (counted)',
+               'direct solver with an inexact preconditioner, and truncated arnoldi with an inexact preconditioner, are excluded from the initial-guess-independence monitor at atol = rtol = 0 (they make no exactness claim); discrepancy recorded as information',
+               'termination is not judged: every solve is bounded by maxiter and the per-case watchdog only yields inconclusive-for-that-case',
+               'MKL backend not installable offline: not covered']
+_SCALE = float(os.environ.get('VERIF_C14_BUDGET_SCALE', '1') or 1)   # >1 only for sweeps on an overloaded machine
+BUDGET_S = {'quick': 75 * _SCALE, 'thorough': 1320 * _SCALE}
 GRACE_S = 60
-NCASES = {'quick': dict(L=8000, S=800, N=700, T=200, P=100, R=1), 'thorough': dict(L=200000, S=25000, N=25000, T=6000, P=2500, R=1)}
+NCASES = {'quick': dict(L=4000, S=300, N=300, T=90, P=40, R=1), 'thorough': dict(L=100000, S=12000, N=12000, T=3000, P=1200, R=1)}
 CHUNK = dict(L=100, S=20, N=20, T=10, P=5, R=1)
 CASE_CPU_S = {'quick': 6, 'thorough': 15}   # per-case CPU-time watchdog; the wall-clock alarm behind it is 10x this
 NAN_FINDING = 'C14-nan-residual-returns-guess'
@@ -53,7 +57,9 @@ def plan(tier, seed):
         c = CHUNK[fam]
         units += [dict(family=fam, start=i, stop=min(n, i + c)) for i in range(0, n, c)]
     order = rng_for(seed, 'c14-plan').permutation(len(units))
-    return [units[i] for i in order]
+    units = [units[i] for i in order]
+    units.sort(key=lambda u: u['family'] != 'R')   # the deterministic regression unit goes first (stable sort keeps the shuffle)
+    return units
 
 
 def dhash(desc):
